@@ -1,6 +1,7 @@
 (* C16 - Host health state is never lost, and thresholds are exact.  Only statements here; proofs by `exact`. *)
 From Coq Require Import List NArith Bool.
-From MV Require Import Lib.Interleave Gen.HealthOps Model.Health Model.HealthCheck Proofs.Health Proofs.HealthCheck.
+From MV Require Import Lib.Interleave Gen.HealthOps Gen.HealthLoop Model.Health Model.HealthCheck Model.HealthLoop
+  Proofs.Health Proofs.HealthCheck Proofs.HealthLoop.
 Import ListNotations.
 Open Scope N_scope.
 
@@ -86,3 +87,73 @@ Example c16_threshold_example :
   hflag (hc_state 2 3 false [RFailure; RTimeout; RSuccess; RSuccess]) = true /\
   hflag (hc_state 2 3 false [RFailure; RTimeout; RSuccess; RSuccess; RSuccess]) = false.
 Proof. unfold thr_ok. repeat split; try (vm_compute; congruence); vm_compute; reflexivity. Qed.
+
+(* Third part: the sessionChecker.Start loop (timers, channels, check ids), Model/HealthLoop.v.
+   `hl_idmode` says where the awaited check id advances, READ FROM session_checker.go on this run.
+   Events: the interval timer fires (a check is sent), a response carrying an id reaches the loop, the timeout timer
+   fires, stop.  Well-formed histories (loop_wf): a response can only come from a check that has been sent - any
+   number of times, at any time (late, duplicate). *)
+Theorem c16_loop_translator_ok : HealthLoop_translator_ok = true.
+Proof. exact (eq_refl true). Qed.
+
+(* for EVERY event history each sent check contributes AT MOST ONE result to the threshold automaton, and every
+   result belongs to a check that was sent *)
+Theorem c16_loop_at_most_one_result : forall u h f evs, loop_wf hl_idmode u h (l_init f) evs = true ->
+  NoDup (map res_id (snd (loop_run hl_idmode u h (l_init f) evs))) /\
+  (forall r, In r (snd (loop_run hl_idmode u h (l_init f) evs)) ->
+             In (res_id r) (l_sent (fst (loop_run hl_idmode u h (l_init f) evs)))).
+Proof. exact (at_most_one_result hl_idmode). Qed.
+Print Assumptions c16_loop_at_most_one_result.
+
+(* a response for a check that already has its result (it timed out, or this is a duplicate) is ignored *)
+Theorem c16_loop_settled_response_ignored : forall u h f evs id ok, loop_wf hl_idmode u h (l_init f) evs = true ->
+  In id (map res_id (snd (loop_run hl_idmode u h (l_init f) evs))) ->
+  snd (hc_loop_step hl_idmode u h (fst (loop_run hl_idmode u h (l_init f) evs)) (EResp id ok)) = None.
+Proof. exact (settled_response_ignored hl_idmode). Qed.
+Print Assumptions c16_loop_settled_response_ignored.
+
+(* exactly one of the interval / timeout timers is armed at any time before Stop *)
+Theorem c16_loop_one_timer_armed : forall u h f evs, loop_wf hl_idmode u h (l_init f) evs = true ->
+  let s := fst (loop_run hl_idmode u h (l_init f) evs) in
+  l_stopped s = false -> (l_it s + l_tt s = 1)%nat.
+Proof. exact (one_timer_armed hl_idmode). Qed.
+Print Assumptions c16_loop_one_timer_armed.
+
+(* the response of the check in flight, arriving while its timeout timer is still armed, is taken as its result.
+   Type-checks only when the id advances on handled results (IdOnResult); with the id advancing at the loop top an
+   expired response made the loop drop it (c16_loop_looptop_refuted). *)
+Theorem c16_loop_awaited_response_accepted : forall u h f evs ok, loop_wf hl_idmode u h (l_init f) evs = true ->
+  let s := fst (loop_run hl_idmode u h (l_init f) evs) in
+  l_stopped s = false -> (0 < l_tt s)%nat ->
+  snd (hc_loop_step hl_idmode u h s (EResp (hd 0 (l_sent s)) ok)) <> None.
+Proof. exact (awaited_accepted_of_mode hl_idmode (eq_refl IdOnResult)). Qed.
+Print Assumptions c16_loop_awaited_response_accepted.
+
+Theorem c16_loop_looptop_refuted : ~ awaited_accepted_statement IdLoopTop.
+Proof. exact looptop_drops_awaited_response. Qed.
+Print Assumptions c16_loop_looptop_refuted.
+
+(* composition with c16_threshold_exact: the automaton is driven by exactly the list of results (one per check, in
+   order), so "exactly when unhealthy_threshold consecutive CHECKS fail": rs = the results of the checks so far *)
+Theorem c16_loop_threshold_exact : forall u h, thr_ok u -> thr_ok h -> forall f evs e r,
+  let s := fst (loop_run hl_idmode u h (l_init f) evs) in
+  let rs := map res_result (snd (loop_run hl_idmode u h (l_init f) evs)) in
+  let s' := fst (hc_loop_step hl_idmode u h s e) in
+  snd (hc_loop_step hl_idmode u h s e) = Some r ->
+  (hflag (l_auto s) = false ->
+     (hflag (l_auto s') = true <-> last_n_all is_fail (N.to_nat u) (rs ++ [res_result r]))) /\
+  (hflag (l_auto s) = true ->
+     (hflag (l_auto s') = false <-> last_n_all is_succ (N.to_nat h) (rs ++ [res_result r]))) /\
+  (fst (res_cb r) = true <-> hflag (l_auto s') <> hflag (l_auto s)) /\
+  snd (res_cb r) = is_succ (res_result r).
+Proof. exact (loop_threshold_exact hl_idmode). Qed.
+Print Assumptions c16_loop_threshold_exact.
+
+(* non-vacuity: check 1 times out, its late answer arrives while check 2 is in flight, check 2 answers in time:
+   results = timeout for check 1, success for check 2; the late answer and a duplicate are ignored *)
+Example c16_loop_example :
+  let evs := [ETick; ETimeout; ETick; EResp 1 true; EResp 2 true; EResp 2 true; ETick; EResp 3 false] in
+  loop_wf hl_idmode 2 1 (l_init false) evs = true /\
+  map (fun r => (res_id r, res_result r)) (snd (loop_run hl_idmode 2 1 (l_init false) evs))
+  = [(1, RTimeout); (2, RSuccess); (3, RFailure)].
+Proof. cbn zeta. split; vm_compute; reflexivity. Qed.
